@@ -32,6 +32,7 @@ def _protected_names() -> set:
     """identifiers that occur in string literals of the rule sources: the functions rules know by name."""
     here = os.path.dirname(os.path.abspath(__file__))
     names = set()
+    refdefs = set()
     files = [os.path.join(here, 'registry.py'), os.path.join(here, 'props.py')]
     rd = os.path.join(here, 'rules')
     files += [os.path.join(rd, x) for x in os.listdir(rd) if x.endswith('.py')]
@@ -42,7 +43,16 @@ def _protected_names() -> set:
         except OSError:
             continue
         for m in re.finditer(r"['\"]([A-Za-z_][A-Za-z0-9_.]*)['\"]", src):
-            for part in m.group(1).split('.'):
+            parts = m.group(1).split('.')
+            if len(parts) >= 2 and parts[0][:1].isupper() and parts[1].startswith('_') \
+                    and not parts[1].startswith('__'):
+                # 'Class._private_method[.nested]': known to the rules as a method of THAT class only
+                QUALIFIED.add((parts[0], parts[1]))
+                names.add(parts[0])
+                for part in parts[2:]:
+                    names.add(part)
+                continue
+            for part in parts:
                 names.add(part)
         if p.endswith('tables_ref.py'):
             # the reference tables name the helpers they leave uninterpreted: every function / method they
@@ -50,12 +60,17 @@ def _protected_names() -> set:
             import ast as _ast
             for x in _ast.walk(_ast.parse(src)):
                 if isinstance(x, _ast.FunctionDef):
-                    names.add(x.name)
+                    refdefs.add(x.name)
                 elif isinstance(x, _ast.Call):
                     if isinstance(x.func, _ast.Name):
                         names.add(x.func.id)
                     elif isinstance(x.func, _ast.Attribute):
                         names.add(x.func.attr)
+    # a reference table defined under a name that the rules only know class-qualified stays class-qualified
+    qual_names = {n for _, n in QUALIFIED}
+    for n in refdefs:
+        if n not in qual_names:
+            names.add(n)
     # names of functions of the rules' own positive fixtures are not repository functions
     names -= {'attach', 'drop', 'pick', 'pairs', 'cached_load', 'module', 'remember', 'lookup', 'rebuild',
               'extend_surface', 'good', 'resolve'}
@@ -63,6 +78,13 @@ def _protected_names() -> set:
 
 
 PROTECTED = None
+QUALIFIED = set()      # (class name, private method name) pairs the rules know
+
+
+def _is_protected(g) -> bool:
+    if g.name in PROTECTED:
+        return True
+    return (getattr(g, '_malsa_owner', None), g.name) in QUALIFIED
 
 
 def _simple_arg(e) -> bool:
@@ -179,7 +201,7 @@ class _Renamer(ast.NodeTransformer):
 
 
 def _callee_ok(g: ast.FunctionDef) -> bool:
-    if (g.name in PROTECTED and not getattr(g, '_malsa_record_method', False)) or \
+    if (_is_protected(g) and not getattr(g, '_malsa_record_method', False)) or \
             (g.name.startswith('__') and g.name.endswith('__')):
         return False
     for d in g.decorator_list:
@@ -278,7 +300,7 @@ def _instantiate(g: ast.FunctionDef, bound, result_target, nested: bool):
 
 
 def _generator_ok(g: ast.FunctionDef) -> bool:
-    if g.name in PROTECTED or g.name.startswith('__'):
+    if _is_protected(g) or g.name.startswith('__'):
         return False
     if any(not (isinstance(d, ast.Name) and d.id == 'staticmethod') for d in g.decorator_list):
         return False
@@ -397,6 +419,7 @@ class _Inliner:
             if isinstance(n, ast.ClassDef):
                 for m in n.body:
                     if isinstance(m, ast.FunctionDef):
+                        m._malsa_owner = n.name
                         out.append((n.name, m))
         return out
 
@@ -708,7 +731,7 @@ def _drop_dead_private(tree) -> int:
             keep = []
             for st in owner.body:
                 if isinstance(st, ast.FunctionDef) and st.name.startswith('_') and not st.name.startswith('__') \
-                        and st.name not in refs and st.name not in PROTECTED and getattr(st, '_malsa_inlined', False):
+                        and st.name not in refs and not _is_protected(st) and getattr(st, '_malsa_inlined', False):
                     dropped += 1
                     changed = True
                     continue
